@@ -290,3 +290,72 @@ pub fn never_iterator_programs() -> Vec<String> {
     }
     out
 }
+
+/// a construct binds a name that is also the name of a variable of another type around it; the
+/// name is used after the construct (where it means the outer variable again) at the type the
+/// binder had: the checker must reject the use, or the accepted program must run soundly
+pub fn binder_scope_programs() -> Vec<String> {
+    // constructs that bind `v` to an int locally
+    let binders = [
+        "n := match v { v: int => v + 1, => 0, }",
+        "match v { v: int => { v + 1 }, => { 0 }, }",
+        "match 5 { v: int => { v }, }",
+        "if v: int = v { v + 1 }",
+        "if v: int = 5 { v + 1 } else { 0 }",
+        "n := if v: int = v { v } else { 0 }",
+        "k := mut 0; while v: int = src(k) { k += 1; }",
+        "for v in [1, 2]~ { v + 1 }",
+        "{ v := 5; v + 1 }",
+        "n := { v := 5; v }",
+        "if true { v := 5; }",
+        "loop { v := 5; break; }",
+        "g := (v: int) -> int { return v + 1; }; g(1)",
+        "m := mod { v := 5; }",
+        "(() { v := 5; })()",
+        "(v, w) := (5, 6)",
+        "[1]~ @ (v: int) -> int { return v; } $]",
+        "{ (v, w) := (5, 6); }",
+    ];
+    // uses of v at type int afterwards
+    let uses = ["v + 1", "[v][0] * 2", "-v", "v"];
+    let mut out = vec![];
+    let src = "src := (k: mut int) -> int|string { if *k < 2 { return *k; } return \"end\"; }; ";
+    for b in binders {
+        for u in uses {
+            // the outer v is a parameter (a string at run time, a union statically)
+            out.push(format!("{src}f := (v: int|string) -> int {{ {b}; return {u}; }}; f(\"text\")"));
+            out.push(format!("{src}f := (v: string) -> any {{ {b}; r := {u}; return r; }}; f(\"text\")"));
+            // the outer v is a top-level variable that is not a constant, and a constant
+            out.push(format!("{src}h := () -> string {{ return \"text\"; }}; v := h(); {b}; {u}"));
+            out.push(format!("{src}v := \"text\"; {b}; {u}"));
+            // no outer v at all
+            out.push(format!("{src}{b}; {u}"));
+            out.push(format!("{src}f := () -> any {{ {b}; r := {u}; return r; }}; f()"));
+        }
+    }
+    out.sort();
+    out.dedup();
+    out
+}
+
+/// every spelling of an integer literal in every position that takes an integer literal
+pub fn literal_spelling_programs() -> Vec<String> {
+    let spellings = [
+        "0", "1", "2", "0x1", "0X1", "0b10", "0o7", "0_1", "1_", "1__0", "0x", "0b2", "0o8", "00", "01", "0x_1", "0xg", "1e3", "1.5", "1.", ".5",
+        "-1", "+1", "99999999999999999999", "9223372036854775807", "9223372036854775808", "0x7fffffffffffffff", "0xffffffffffffffff",
+        "0b1111111111111111111111111111111111111111111111111111111111111111", "1i", "1u8", "١", "1 2",
+    ];
+    let positions = [
+        "(5, 6.5, \"x\").{}", "t := (5, 6.5); t.{}", "((1, 2), 3).0.{}", "(5, 6.5).{}.0", "[1, 2, 3][{}]", "[1, 2, 3][{}:]", "[1, 2, 3][:{}]", "[1, 2, 3][::{}]",
+        "\"abc\"[{}]", "[0; {}]", "[{}; 2]", "1 << {}", "{} >> 1", "2 ** {}", "7 % {}", "match 1 { {} => 1, => 2, }", "mut int {}", "mut {}",
+        "struct{a := {}}.a", "f := (n: int) -> int { return n; }; f({})", "x := {}; x", "c := mut 0; c += {}", "if {} == 0 { 1 } else { 2 }",
+        "[1, 2]~ $ {} (a: int, b: int) -> int { return a + b; }", "-{}", "!{}", "({}, {}).1", "[{}, {}][1]", "return {}", "{}",
+    ];
+    let mut out = vec![];
+    for p in positions {
+        for sp in spellings {
+            out.push(p.replace("{}", sp));
+        }
+    }
+    out
+}
